@@ -739,7 +739,8 @@ pub fn run(o: &Opts) -> i32 {
         .collect();
     let h = |m: &BTreeMap<String, usize>| serde_json::to_string(m).unwrap();
     let report = format!(
-        "{{\"sub\":\"syntax\",\"cases\":{},\"shards\":{},\"distinct_nontrivial\":{},\"rule\":{},\"kind_hist\":{},\"result_hist\":{},\"command_hist\":{},\"option_hist\":{},\"samples\":[{}],\"violations\":[{}],\"extra_coverage\":{{\"float_oracle_hypothesis_values_tested\":{},\"tokens_checked_for_digit_hypothesis\":{}{}}}}}\n",
+        "{{\"sub\":\"syntax\",\"evaluations\":{},\"cases\":{},\"shards\":{},\"distinct_nontrivial\":{},\"rule\":{},\"kind_hist\":{},\"result_hist\":{},\"command_hist\":{},\"option_hist\":{},\"samples\":[{}],\"violations\":[{}],\"extra_coverage\":{{\"float_oracle_hypothesis_values_tested\":{},\"tokens_checked_for_digit_hypothesis\":{}{}}}}}\n",
+        cx.kind_hist.values().sum::<usize>().max(cx.w.total).max(cx.nontrivial),
         cx.w.total,
         cx.w.shards,
         cx.nontrivial,
